@@ -33,6 +33,7 @@ def dispatch (op : String) : Option Handler :=
   | "cmp3" => some C09.cmp3
   | "dslsort" => some C09.dslsort
   | "join" => some C13.join
+  | "pctidx" => some Verbs.pctidx
   | "fanout" => some C20.fanout
   | "re" => some Re.re
   | "bystand" => some C03.bystand
